@@ -17,6 +17,9 @@ import (
 )
 
 func main() {
+	if len(os.Args) == 2 && os.Args[1] == "selftest" {
+		os.Exit(runSelftest(defaultConfig()))
+	}
 	if len(os.Args) < 3 {
 		fmt.Fprintln(os.Stderr, "usage: gosymx check <ID> [--tier quick|thorough] | gosymx replay <ID> <file>")
 		os.Exit(2)
@@ -63,7 +66,7 @@ func main() {
 		cfg.Prop = strings.ToUpper(os.Args[2])
 		os.Exit(listSources(cfg))
 	case "selftest":
-		os.Exit(0)
+		os.Exit(runSelftest(cfg))
 	case "replay":
 		cfg.Prop = strings.ToUpper(os.Args[2])
 		os.Exit(runReplay(cfg, os.Args[3]))
